@@ -39,6 +39,8 @@ MetaLayouts(schemaBytes) ==
 Partitions(n) ==
   IF n = 0 THEN {<<>>}
   ELSE {<<n>>} \cup {[i \in 1..n |-> 1]} \cup (IF n >= 3 THEN {<<1, n - 1>>, <<n - 1, 1>>} ELSE {})
+       \* a block may hold no object at all (count 0, size 0): at the start, in the middle, at the end
+       \cup (IF n >= 2 THEN {<<1, 0, n - 1>>, <<0, n>>, <<n, 0>>} ELSE {})
 
 RECURSIVE BlocksFor(_, _, _, _, _)
 BlocksFor(encs, part, i, from, acc) ==
